@@ -1726,14 +1726,29 @@ def _minmax(ctx, vals, want_max, signed=False):
     return some(best)
 
 
+def _item_signed(ctx, it, callee):
+    """signedness of an iterator's integer items: from the return type of the closure that produces them"""
+    cur = it
+    for _ in range(8):
+        f = getattr(cur, 'f', None)
+        if f is not None and isinstance(f, Closure):
+            fn = ctx.prog.closures.get(f.loc)
+            if fn is not None:
+                m = re.search(r'\b(i8|i16|i32|i64|isize|u8|u16|u32|u64|usize)\b', fn.ret)
+                if m:
+                    return m.group(1) in SIGNED
+        cur = getattr(cur, 'inner', None)
+        if cur is None:
+            break
+    sm = re.search(r'\b(i8|i16|i32|i64|isize)\b', callee)
+    return bool(sm) and not re.search(r'\b(u8|u16|u32|u64|usize)\b', callee)
+
+
 @model(r'^<.* as Iterator>::(min|max)$')
 def m_iter_minmax(ctx, args, callee):
-    vals = drain(ctx, _it(ctx, args[0]))
-    m = re.search(r'Item ?= ?(\w+)', callee)
-    signed = False
-    # item type: from the iterator's generic text if it names a signed integer
-    sm = re.search(r'\b(i8|i16|i32|i64|isize)\b', callee)
-    signed = bool(sm) and not re.search(r'\b(u8|u16|u32|u64|usize)\b', callee)
+    it = _it(ctx, args[0])
+    signed = _item_signed(ctx, it, callee)
+    vals = drain(ctx, it)
     return _minmax(ctx, vals, callee.endswith('max'), signed)
 
 
@@ -2114,6 +2129,49 @@ def m_take_mem(ctx, args, callee):
     else:
         raise Unmodelled('mem::take of %r' % (type(a).__name__,))
     return a
+
+
+# --- floats
+@model(r'^(std::)?f64::<impl f64>::powi$|^f64::powi$|^core::f64::<impl f64>::powi$')
+def m_powi(ctx, args, callee):
+    x = args[0]; n = sconc(args[1])
+    if n is None or n < 0 or n > 4:
+        raise Unmodelled('powi with exponent %r' % (n,))
+    r = z3.FPVal(1.0, z3.Float64())
+    if n >= 1:
+        r = x
+        for _ in range(n - 1):
+            r = z3.fpMul(z3.RNE(), r, x)
+    return r
+
+
+@model(r'^(std::)?f64::<impl f64>::sqrt$|^f64::sqrt$')
+def m_sqrt(ctx, args, callee):
+    return z3.fpSqrt(z3.RNE(), args[0])
+
+
+@model(r'^(std::)?f64::<impl f64>::abs$|^f64::abs$')
+def m_fabs(ctx, args, callee):
+    return z3.fpAbs(args[0])
+
+
+# --- chars
+@model(r'^(core::)?str::<impl str>::chars$')
+def m_chars(ctx, args, callee):
+    s_ = as_str(ctx, args[0])
+    if isinstance(s_, SpecialStr):
+        return s_.sop(ctx, 'chars', args, callee)
+    if s_.s is None:
+        raise Unmodelled('chars() of symbolic string')
+    it = ListIter([BitVecVal(ord(c), 32) for c in s_.s])
+    it.src = s_.s
+    return it
+
+
+@model(r'^(core::)?str::Chars::as_str$|^Chars::as_str$|^<Chars<.*>>::as_str$')
+def m_chars_as_str(ctx, args, callee):
+    it = _it(ctx, args[0])
+    return Str(''.join(chr(conc(c)) for c in it.remaining()))
 
 
 # --- integers
